@@ -354,6 +354,8 @@ class Interp:
                 iv = st.mem.get((fid, int(p[2:-1])))
                 if iv is not None and iv[0] == "const" and isinstance(iv[1], int) and not isinstance(iv[1], bool):
                     loc = self.add_proj(loc, "[%d]" % iv[1])
+                elif iv is not None and iv[0] == "op":
+                    loc = self.add_proj(loc, "[%s]" % iv[1])
                 else:
                     loc = self.add_proj(loc, "[]")
             elif p.startswith("[c") and p[2:-1].isdigit():
@@ -1408,6 +1410,7 @@ MODELS = {
     "std::cell::Cell::<T>::set": m_stdcell_set,
     "std::cell::Cell::<T>::replace": m_stdcell_replace,
     "std::thread::panicking": m_panicking,
+    "<I as std::iter::IntoIterator>::into_iter": m_identity,
     "core::panicking::panic_fmt": m_panic,
     "core::panicking::panic": m_panic,
 }
